@@ -20,6 +20,17 @@ def nexthop(i, rng):
     return h + b":%d" % rng.choice([5060, 5061, 1, 65535, 7000 + i])
 
 
+def group(rng, ents):
+    """an operator lists several dests under one next hop: make neighbours share protocol and next hop now and then (the
+    driver then writes them as ONE route item of the YAML configuration, wildcards in any position)"""
+    out = []
+    for e in ents:
+        if out and rng.random() < 0.4:
+            e = (out[-1][0], e[1], out[-1][2])
+        out.append(e)
+    return out
+
+
 class C18:
     id = "C18"
     rule = ("exhaustive: every ordered table of <=L entries (L=3 quick, 4 thorough) over the 10-pattern universe x "
@@ -80,6 +91,7 @@ class C18:
                 if k == 3 and rng.random() < (0.8 if tier == "quick" else 0.0):
                     continue
                 ents = [(rng.choice(PROTOS), p, nexthop(i, rng)) for i, p in enumerate(pats)]
+                ents = group(rng, ents)
                 hs = [rng.choice(HOSTS) for _ in range(rng.randrange(3, 9))]
                 hs += [hs[0], hs[1], hs[0]]
                 toks = [len(ents)]
@@ -93,7 +105,8 @@ class C18:
             for j in range(rng.randrange(3, 9)):
                 parts = [rng.choice(labels + [b"*"] * 3) for _ in range(rng.randrange(1, 4))]
                 ents.append((rng.choice(PROTOS), b".".join(parts) if rng.random() < 0.9 else b"default", nexthop(j, rng)))
-            pool = [b".".join(rng.choice(labels) for _ in range(rng.randrange(1, 4))) for _ in range(4)] + \
+            ents = group(rng, ents)
+            pool =[b".".join(rng.choice(labels) for _ in range(rng.randrange(1, 4))) for _ in range(4)] + \
                    [rng.choice(ents)[1].replace(b"*", rng.choice(labels)) for _ in range(3)]
             hs = [rng.choice(pool) for _ in range(rng.randrange(4, 16))]
             toks = [len(ents)]
